@@ -31,11 +31,17 @@ func buildReferenceGraph(values map[string][]token) map[string][]string {
 // nodeContainsCycle checks for a cycle in graph by performing a depth first traversal
 // recursively, starting from node, and passing the visited nodes to stop if a cycle
 // is found
-func nodeContainsCycle(node string, graph map[string][]string, visited []string) (bool, string) {
+// nodes found free of cycles are remembered in done, so that every node is
+// searched once and not once per path that leads to it
+func nodeContainsCycle(node string, graph map[string][]string, visited []string, done map[string]bool) (bool, string) {
+	if done[node] {
+		return false, ""
+	}
 	visited = append(visited, node)
 
 	symRefs, ok := graph[node]
 	if !ok {
+		done[node] = true
 		return false, ""
 	}
 
@@ -43,18 +49,20 @@ func nodeContainsCycle(node string, graph map[string][]string, visited []string)
 		if slices.Contains(visited, ref) {
 			return true, ref
 		}
-		subCycle, key := nodeContainsCycle(ref, graph, visited)
+		subCycle, key := nodeContainsCycle(ref, graph, visited, done)
 		if subCycle {
 			return true, key
 		}
 	}
 
+	done[node] = true
 	return false, ""
 }
 
 func graphContainsCycle(graph map[string][]string) (bool, string) {
+	done := make(map[string]bool)
 	for key := range graph {
-		nodeCycle, cycleKey := nodeContainsCycle(key, graph, []string{})
+		nodeCycle, cycleKey := nodeContainsCycle(key, graph, []string{}, done)
 		if nodeCycle {
 			return true, cycleKey
 		}
